@@ -9,7 +9,7 @@ from audiolazy import ZFilter, LinearFilter, CascadeFilter, ParallelFilter, z, P
 
 ID = "C05"
 RULE = ("cases = pairs/triples of causal rational filters with small integer coefficients "
-        "(orders 0..3), integer or dyadic scalars, exponents 0..4, delays 0..5, inputs of exact "
+        "(orders 0..3), integer or dyadic scalars, exponents 0..4 (and 5..16, either sign, on 1..3-term filters), delays 0..5, inputs of exact "
         "rationals, and expression trees over + - * / ** and substitution (depth <= 3); oracle = "
         "an independent rational-function arithmetic on (numerator, denominator) dicts of "
         "Fractions (equality by cross-multiplication) and diffeq_ref of the expected rational "
@@ -224,6 +224,89 @@ def run_signals(c):
     labels.append("f recursive")
   nt = order(c["f"]) >= 1 and order(c["g"]) >= 1 and c["f"] != c["g"] and len(x) >= 3
   return {"nontrivial": nt, "labels": labels}
+
+
+# ---------------------------------------------------------------- (a') high powers
+HIGH_N = [6, 8, 5, 7, 12, 13, 16, 9, 10, 11, 14, 15, 6, 7, 8, 12, 13, 16, 10, 14]
+
+
+def strat_highpow(tier):
+  small = st.integers(-2, 2)
+  nzs = small.filter(lambda v: v != 0)
+  # short filters by construction (cost guard: the n-th power has at most 2 n + 1 terms, n <= 16); mostly 2-3 terms
+  tail = st.one_of(st.just([]), st.tuples(nzs).map(list), st.tuples(nzs).map(list),
+                   st.tuples(small, nzs).map(list), st.tuples(small, nzs).map(list))
+  b = st.tuples(nzs, tail).map(lambda t: [t[0]] + t[1])
+  a = st.tuples(st.sampled_from([1, 1, -1, 2]), tail).map(lambda t: [t[0]] + t[1])
+  bd = st.tuples(st.integers(0, 2), b).map(lambda t: [0] * t[0] + t[1])   # numerator may start with a delay
+  return st.fixed_dictionaries(dict(
+    f=st.tuples(st.one_of(b, b, bd), a), n=st.sampled_from(HIGH_N), neg=st.sampled_from([False, False, False, True]),
+    x=st.one_of(st.lists(qv, min_size=3, max_size=6), st.lists(qv, min_size=3, max_size=6), st.lists(qv, max_size=6))))
+
+
+def run_highpow(c):
+  """f ** n for 5 <= |n| <= 16 on filters with 1..3 terms per polynomial: against f applied |n| times, against the
+  |n|-fold product of filters, against the |n|-fold product of the polynomials themselves and against the model."""
+  ba, x = (list(c["f"][0]), list(c["f"][1])), c["x"]
+  n = c["n"]
+  neg = bool(c["neg"]) and ba[0][0] != 0      # the inverse of a numerator starting with a delay is not causal
+  if neg:
+    ba = (ba[1], ba[0])      # f ** -n is (1/f) ** n: compose the inverse system n times
+    e = -n
+    base = lambda: mk(c["f"])
+  else:
+    e = n
+    base = lambda: mk(ba)
+  F_ = RF.lists(*ba)         # the system that has to be applied n times
+  powered = base() ** e
+  if not isinstance(powered, ZFilter):
+    raise Violation("f ** %d is a %s, not a ZFilter" % (e, type(powered).__name__))
+  y = list(x)
+  for _ in range(n):
+    y = run_filt(mk(ba), y)
+  model = RF({0: 1})
+  for _ in range(n):
+    model = model * F_
+  what = "(f**%d)(x) for f=%r" % (e, c["f"])
+  got = expect_out(powered, model, x, what)
+  if got != y:
+    raise Violation("%s: output %r is not f%s applied %d times, %r (x=%r)"
+                    % (what, got, "**-1" if neg else "", n, y, x))
+  expect_same(powered, model, "f**%d polynomials for f=%r" % (e, c["f"]))
+  # the library's own n-fold product of filters
+  prod = base() if not neg else 1 / base()
+  for _ in range(n - 1):
+    prod = prod * (base() if not neg else 1 / base())
+  if not (powered.numpoly * prod.denpoly == prod.numpoly * powered.denpoly):
+    raise Violation("f**%d has (%r)/(%r), the %d-fold product of filters has (%r)/(%r) (f=%r)"
+                    % (e, powered.numpoly, powered.denpoly, n, prod.numpoly, prod.denpoly, c["f"]))
+  if run_filt(prod, x) != y:
+    raise Violation("the %d-fold product of f%s does not give f applied %d times (f=%r x=%r)"
+                    % (n, "**-1" if neg else "", n, c["f"], x))
+  # the polynomials themselves: p ** n is the n-fold product of p (exact Poly equality and the dict model)
+  for name, lst in (("numerator", c["f"][0]), ("denominator", c["f"][1])):
+    p = lambda: Poly(dict((k, v) for k, v in enumerate(lst) if v))
+    pn = p() ** n
+    pp = p()
+    pm = trim(dict(enumerate(lst)))
+    mm = dict(pm)
+    for _ in range(n - 1):
+      pp = pp * p()
+      mm = p_mul(mm, pm)
+    if not (pn == pp) or (pn != pp) or trim(dict(pn.terms())) != mm:
+      raise Violation("%s polynomial %r ** %d gives %r, the %d-fold product is %r"
+                      % (name, lst, n, dict(pn.terms()), n, mm))
+  terms = max(sum(1 for v in ba[0] if v), sum(1 for v in ba[1] if v))
+  labels = ["n=%d" % n, "even n >= 6" if n % 2 == 0 else "odd n", "%d-term" % terms]
+  if neg:
+    labels.append("negative exponent")
+  if terms >= 2:
+    labels.append("multi-term")
+    if n % 2 == 0:
+      labels.append("multi-term, even n >= 6")
+  if any(c["f"][1][1:]):
+    labels.append("f recursive")
+  return {"nontrivial": terms >= 2 and len(x) >= 2, "labels": labels}
 
 
 # ---------------------------------------------------------------- (b) cascade / parallel
@@ -666,6 +749,9 @@ CLAUSES = [
   Clause("signals", strat_signals, run_signals, quick=500, thorough=12000,
          floors={"f recursive": .3},
          doc="(f+g)(x), (f-g)(x), (c*f)(x), (f*g)(x)=f(g(x))=g(f(x)), ((f/g)*g)(x), (f**n)(x), z**-k: outputs and polynomials"),
+  Clause("high_powers", strat_highpow, run_highpow, quick=400, thorough=8000,
+         floors={"multi-term, even n >= 6": .1, "odd n": .1, "negative exponent": .03, "f recursive": .15},
+         doc="f**n, 5 <= |n| <= 16, on 1..3-term filters: f applied |n| times, |n|-fold product of filters and of polynomials"),
   Clause("cascade_parallel", strat_lists, run_lists, quick=700, thorough=15000,
          floors={"shared denominator": .1},
          doc="CascadeFilter == product, ParallelFilter == sum: outputs and numpoly/denpoly by cross-multiplication"),
